@@ -9,8 +9,8 @@ import anchors
 GRAPH_GUARD = "std::sync::MutexGuard"
 
 
-def is_graph_guard_ty(ty):
-    return any(t.is_adt(GRAPH_GUARD) for t in ty.walk()) and any(t.is_adt("std::collections::HashMap") for t in ty.walk())
+def is_graph_guard_ty(ty, f):
+    return any(t.is_adt(GRAPH_GUARD) for t in ty.walk()) and any(anchors.is_wait_map(f, t) for t in ty.walk())
 
 
 def is_map_method(f, blk, name):
@@ -39,7 +39,7 @@ class Detection:
         self.root = b.root or b.defn
         self.cfg = cfg_of(b)
         self.tr = tr = tracer_of(b)
-        allg = [i for i, l in enumerate(b.locals) if is_graph_guard_ty(f.ty(l["ty"])) and f.ty(l["ty"]).is_adt(GRAPH_GUARD)]
+        allg = [i for i, l in enumerate(b.locals) if is_graph_guard_ty(f.ty(l["ty"]), f) and f.ty(l["ty"]).is_adt(GRAPH_GUARD)]
         # temporaries that merely receive a move of another guard local are aliases, not acquisitions
         self.guards = []
         for g in allg:
